@@ -133,6 +133,7 @@ CHECKS = {
              "fair environment after every sync (caches delivered, GC, every child healthy and observed); completion within 2n+6 / 3n+6 syncs; first change template or template+scale-down, second change template / scale-down / scale-up, Updated=True, exactly one ControllerRevision; never 'missing child' for a cached child; plus two rolling child kinds whose children share names (n=1..2, thorough 3), the second kind dropped / brought back by a revisioned field before or during a template rollout (first change tpl / tpl+drop / drop, second change tpl / drop / tpl+drop / add / scale-down at every sync index)",
         units=[
             dict(pkg=COMPOSITE, test="TestVerifC08", shards=dict(quick=8, thorough=16), budget=dict(quick=300, thorough=1200)),
+            dict(pkg=COMPOSITE, test="TestVerifC08Hist", shards=dict(quick=8, thorough=16), budget=dict(quick=600, thorough=3000)),
         ],
         assumptions=SIM_ASSUMPTIONS + ["fair environment: the harness, acting as the children's own controllers, marks every child Ready=True with observedGeneration=generation after every sync"],
     ),
